@@ -24,6 +24,10 @@ impl<const BITS: usize, const LIMBS: usize> Encodable for Uint<BITS, LIMBS> {
 /// See <https://eth.wiki/en/fundamentals/rlp>
 impl<const BITS: usize, const LIMBS: usize> Decodable for Uint<BITS, LIMBS> {
     fn decode(s: &Rlp) -> Result<Self, DecoderError> {
+        // `Rlp::data` also returns the payload of list items; a list is not an integer.
+        if s.is_list() {
+            return Err(DecoderError::RlpExpectedToBeData);
+        }
         Self::try_from_be_slice(s.data()?).ok_or(DecoderError::Custom(
             "RLP integer value too large for Uint.",
         ))
